@@ -11,6 +11,7 @@
 
 #include "libphysica/Numerics.hpp"
 #include <memory>
+#include <new>
 #include <utility>
 
 using namespace libphysica;
@@ -405,6 +406,14 @@ std::string handle(const std::string& op, Args& a)
 				c.i = a.u64();
 				c.q = read_op(a, false);
 			}
+			else if(c.t == "R")	  // R mode slot table xold xnew
+			{
+				c.q.k = a.u64();
+				c.i	  = a.u64();
+				c.j	  = a.u64();
+				c.q.a = a.dbl();
+				c.q.b = a.dbl();
+			}
 			else
 				throw BadArgs("pop " + c.t);
 		}
@@ -462,6 +471,29 @@ std::string handle(const std::string& op, Args& a)
 						throw BadArgs("slot");
 					slot[c.i].reset();
 					o << "U";
+				}
+				else if(c.t == "R")
+				{
+					// the old object evaluates, then another curve takes its place in the SAME storage (mode 0: destructor +
+					// placement new; mode 1: assignment of a newly constructed object), and the new object's first call follows
+					// immediately - no call on any other object in between
+					live(c.i);
+					if(c.j >= nt)
+						throw BadArgs("table");
+					Interpolation* ptr = slot[c.i].get();
+					(void) ptr->Interpolate(c.q.a);
+					if(c.q.k == 0)
+					{
+						ptr->~Interpolation();
+						new(ptr) Interpolation(tb[c.j].first, tb[c.j].second);
+					}
+					else
+						*ptr = Interpolation(tb[c.j].first, tb[c.j].second);
+					info[c.i] = Info {c.j, 1.0, false};
+					double vu = ptr->Interpolate(c.q.b);
+					Interpolation g(tb[c.j].first, tb[c.j].second);
+					double vf = g.Interpolate(c.q.b);
+					o << "V" << vu << vf;
 				}
 				else
 				{
